@@ -160,7 +160,7 @@ int xcm_tp_socket_receive(struct xcm_socket *s, void *buf, size_t capacity)
     CHECK(g_recv_calls <= 2, "C01: at most a header read and a payload read per receive call");
     CHECK(buf == (void *)(rb->wire_data + rb->wire_len), "C01,C07: lower receive appends at the end of the partial frame");
     CHECK(rb->wire_len + capacity <= rb->wire_capacity, "C07: lower receive stays inside the frame buffer");
-    CHECK(capacity > 0, "C07: lower receive is asked for at least one byte (a 0-byte read cannot be told from end of stream)");
+    CHECK(capacity > 0, "C06,C07: lower receive is asked for at least one byte (a 0-byte read cannot be told from end of stream)");
     /* exactly the bytes missing from the current frame */
     if (rb->wire_len < 4)
 	CHECK(capacity == 4 - rb->wire_len, "C01: header read asks for exactly the missing header bytes");
@@ -319,7 +319,7 @@ static void check_inv(void)
     }
     if (!TS->conn.bad && rb->wire_len >= 4) {
 	uint32_t L = ntohl(*(uint32_t *)rb->wire_data);
-	CHECK(L >= 1 && L <= MBUF_MSG_MAX, "C07: INV a buffered header of a healthy connection announces a legal length (1..65535)");
+	CHECK(L >= 1 && L <= MBUF_MSG_MAX, "C06,C07: INV a buffered header of a healthy connection announces a legal length (1..65535)");
 	CHECK(rb->wire_len < 4 + L, "C01: INV a complete frame is never left in the receive buffer");
     }
     if (TS->conn.bad)
@@ -553,7 +553,7 @@ int main(void)
 		CHECK(!TS->conn.bad, "C06: EAGAIN does not poison the connection");
 		CHECK(rb->wire_len == wlen, "C01: after EAGAIN the partial frame holds exactly the bytes received so far");
 		CHECK(!complete, "C01,C04: EAGAIN is not reported while a complete frame is buffered");
-		CHECK(!(wlen >= 4 && (L == 0 || L > MBUF_MSG_MAX)), "C07: an illegal announced length is reported as EPROTO, not hidden behind EAGAIN");
+		CHECK(!(wlen >= 4 && (L == 0 || L > MBUF_MSG_MAX)), "C06,C07: an illegal announced length is reported as EPROTO, not hidden behind EAGAIN");
 		for (uint32_t i = 0; i < CMPMAX + 4; i++)
 		    if (i < wlen && i < rb->wire_len)
 			CHECK((uint8_t)rb->wire_data[i] == W[i], "C01: buffered partial frame bytes are the stream bytes in order");
